@@ -4,6 +4,7 @@ import QV.Proofs.Front6
 import QV.Proofs.Front9
 import QV.Proofs.Front10
 import QV.Proofs.Front11
+import QV.Proofs.A2A6
 import QV.Model.Front
 /-!
 # C01 – Boolean expressions mean what the Python source means
@@ -620,5 +621,90 @@ theorem C01_guarded (p : Prog) (consts : List (Bool × Bool)) (hp : Sem.guardedL
   have h1 := Sem.agree_claim ha i b hc
   rw [← hbits, List.getElem?_map, hn] at h1
   simpa using h1
+
+/-! ## `ast2ast`: the rewriting of `if` statements preserves the source-level meaning
+
+`QV/Model/Ast2Ast.lean` models the pass statement by statement (`A2A.ast2ast`; compared tree for tree with the
+real pass on every run).  `QV/Model/SemSrc.lean` gives the *source* tree a meaning with control flow
+(`A2A.execProg`): an `if` evaluates its test once, to a value, before any statement of a branch runs; the
+branch whose polarity the value has runs, the other changes no value (`A2A.exec` under a guard stack;
+an assignment under the stack stores `wrapW gs new old`).  Class `A2A.okProg` (decidable): user names,
+statements `t = e`, `t op= e` (every operator but `**`), `if` / `elif` / `else` nested to any depth through
+else branches, expression statements and `return e` at the top level, `e` plain (`A2A.plainE`). -/
+
+open QV.A2A in
+/-- **ast2ast_if_preserved** – running the rewritten straight-line list under `Sem.semProg` gives the value
+the source has under `execProg`: whenever the former is defined.  (An `if` in the *body* of an `if` makes the
+rewritten list read `_iftargN` before it is defined; such programs are outside `okProg`.)  Proof
+(`QV/Proofs/A2A1 … A2A6.lean`): simulation `ml_stmt` / `ml_list` by induction over the statement: the list
+the rewriter returns for a statement, wrapped in the guards `Γ` of the enclosing `if`s (`wrapF`, what the
+enclosing `visit_If` calls do to it afterwards), run from an environment that agrees with the source
+environment on the user variables (`Rel`), ends in such an environment, and the source environment is the
+one `exec` computes under the values of the guards; the guard variables are not touched (`Frame`; their names
+`_iftarg<hex n>` differ for different `n`: `iftargName_inj`).  One assignment: `assign_sim` – the if-expression
+chain `wrapE` evaluates to `wrapW` of the guard values (`semW_wrapE`); the pair `__t = …; t = __t` stores the
+same value because wrapping twice is wrapping once (`wrapW_idem`, from the closed form `wrapW_closed`). -/
+theorem ast2ast_if_preserved (p : SProg) (hp : okProg p = true) (L : List SStmt) (st : RSt)
+    (h : (rwSs [] p.body).run (initSt (aargsOf p)) = .ok (L, st)) (ρ : String → Bool) (sv : Sem.SVal)
+    (hsem : Sem.semProg ⟨p.args, p.ret, L.map toStmt⟩ ρ = some sv) : execProg p ρ = some sv :=
+  rewrite_preserved p hp L st h ρ sv hsem
+
+open QV.A2A in
+/-- the list the statement rewriter returns is the result of the whole pass `ast2ast` when the two
+constant-folding passes and the multi-target pass have nothing to do -/
+theorem ast2ast_of_rw (aargs : Args) (body L : List SStmt) (st : RSt)
+    (hres : rejectReserved (aargs.map (·.1)) body = .ok ()) (hf1 : foldSs body = .ok body)
+    (hmt : mtSs body = .ok body) (hrw : (rwSs [] body).run (initSt aargs) = .ok (L, st))
+    (hf2 : foldSs L = .ok L) : ∃ log, ast2ast aargs body = .ok (L, log) := by
+  have : ast2ast aargs body = .ok (L, st.log ++ (if body != body then ["fold-pre"] else [])
+      ++ (if body != body then ["multitarget"] else []) ++ (if L != L then ["fold-post"] else [])) := by
+    unfold ast2ast
+    simp only [hres, hf1, hmt, hrw, hf2, bind, Except.bind, pure, Except.pure]
+  exact ⟨_, this⟩
+
+open QV.A2A in
+/-- **C01_if** – end to end for programs with `if`.  Source program `p` in `okProg`; `L` the list the statement
+rewriter returns, which is the output of the whole pass `ast2ast` (nothing to fold, no tuple targets); the
+rewritten program in the guarded fragment (`Sem.guardedLine`, decidable: it holds when every self-reading
+assignment went through its `__` temporary) and accepted by `translate`.  Then for every assignment `ρ` of the
+argument bits the **source-level** meaning `execProg p ρ` is defined and the sequential evaluation of the
+definitions leaves exactly its bits in the return symbols; and every bit the exact python semantics of the
+rewritten program claims is that bit (`C01_guarded`). -/
+theorem C01_if (p : SProg) (hp : okProg p = true) (L : List SStmt) (st : RSt)
+    (hres : rejectReserved ((aargsOf p).map (·.1)) p.body = .ok ()) (hf1 : foldSs p.body = .ok p.body)
+    (hmt : mtSs p.body = .ok p.body)
+    (hrw : (rwSs [] p.body).run (initSt (aargsOf p)) = .ok (L, st)) (hf2 : foldSs L = .ok L)
+    (consts : List (Bool × Bool)) (hg : Sem.guardedLine ⟨p.args, p.ret, L.map toStmt⟩ = true)
+    (defs : List (String × BExp)) (events : List String)
+    (htr : translate Quirks.none consts ⟨p.args, p.ret, L.map toStmt⟩ = .ok (defs, events)) (ρ : Env) :
+    (∃ log, ast2ast (aargsOf p) p.body = .ok (L, log)) ∧
+    ∃ sv, execProg p ρ = some sv ∧ (p.ret.names "_ret").map (runDefs defs ρ) = sv.bits ∧
+      ∀ xv, Sem.semProgX ⟨p.args, p.ret, L.map toStmt⟩ ρ = some xv →
+        Sem.Agree xv sv ∧
+        ∀ (i : Nat) (b : Bool), xv.claim[i]? = some (some b) →
+          ∀ name, (p.ret.names "_ret")[i]? = some name → runDefs defs ρ name = b := by
+  refine ⟨ast2ast_of_rw _ _ L st hres hf1 hmt hrw hf2, ?_⟩
+  obtain ⟨sv, hs, hbits, hx⟩ := C01_guarded ⟨p.args, p.ret, L.map toStmt⟩ consts hg defs events htr ρ
+  exact ⟨sv, ast2ast_if_preserved p hp L st hrw ρ sv hs, hbits, hx⟩
+
+open QV.A2A in
+/-- the hypotheses of `C01_if` are satisfiable: the latch `if a: a = False; r = r + 1` followed by an `elif`
+chain that re-assigns what its tests read -/
+example :
+    let p : SProg := ⟨[("a", .bool), ("r", .qint 2)], .qint 2,
+      [.ifs (.name "a")
+         [.assign [.name "a"] (.const (.bool false)), .assign [.name "r"] (.bin "Add" (.name "r") (.const (.int 1)))]
+         [],
+       .ifs (.cmp "Gt" (.name "r") (.const (.int 2)))
+         [.aug (.name "r") "Sub" (.const (.int 1))]
+         [.ifs (.unop "Not" (.name "a")) [.assign [.name "a"] (.cmp "Eq" (.name "r") (.const (.int 0)))]
+            [.assign [.name "r"] (.const (.int 3))]],
+       .ret (some (.name "r"))]⟩
+    okProg p = true ∧ rejectReserved ((aargsOf p).map (·.1)) p.body = .ok () ∧ foldSs p.body = .ok p.body ∧
+      mtSs p.body = .ok p.body ∧
+      ∃ L st, (rwSs [] p.body).run (initSt (aargsOf p)) = .ok (L, st) ∧ foldSs L = .ok L ∧
+        Sem.guardedLine ⟨p.args, p.ret, L.map toStmt⟩ = true ∧
+        ∃ defs ev, translate Quirks.none [] ⟨p.args, p.ret, L.map toStmt⟩ = .ok (defs, ev) := by
+  refine ⟨by decide, rfl, rfl, rfl, _, _, rfl, rfl, by decide, _, _, rfl⟩
 
 end QV.C01
